@@ -23,7 +23,7 @@ import decgen  # noqa: E402
 import decpost  # noqa: E402
 
 OPS = ["mothers", "number", "modes", "chains", "expand", "print", "aliases", "ccs", "defs", "copies", "cdecays",
-       "pythia", "jetset", "lineshape", "lspw", "photos", "model_aliases", "reparse"]
+       "pythia", "jetset", "lineshape", "lspw", "photos", "model_aliases", "reparse", "reparse_nocc"]
 
 
 def mutate(x, depth=0):
@@ -150,6 +150,21 @@ def impl_main(mode, fin, fout):
                         x = s2[2] if s2[1] == s1[1] else s2[1]
                         if any(s3[0] == "CDecay" and s3[1] == x for s3 in st) and x not in names_now:
                             viol.append("a copied table was not usable as the source of a CDecay")
+        # the copy law on what the parser reports: NEW's table is OLD's, line by line
+        try:
+            obs = decpost.observe_tables(p)
+            first_tab = {}
+            for mname, lines in obs:
+                first_tab.setdefault(mname, lines)
+            decay_names = {s0[1] for s0 in st if s0[0] == "Decay"}
+            for s1 in st:
+                if s1[0] == "CopyDecay" and s1[1] not in decay_names and s1[2] in decay_names and s1[1] in first_tab \
+                        and sum(1 for s0 in st if s0[0] == "CopyDecay" and s0[1] == s1[1]) == 1:
+                    if first_tab[s1[1]] != first_tab[s1[2]]:
+                        viol.append("a copied table differs from its source")
+                        break
+        except Exception:  # noqa: BLE001
+            pass
         # (a) history
         steps = []
         for op, arg in c["ops"]:
@@ -190,6 +205,20 @@ def impl_main(mode, fin, fout):
                     r = p.global_photos_flag()
                 elif op == "model_aliases":
                     r = p.dict_model_aliases()
+                elif op == "reparse_nocc":
+                    # parse without the charge-conjugate decays, ask for every mother and derived name, parse again as before
+                    import warnings
+                    with warnings.catch_warnings():
+                        warnings.simplefilter("ignore")
+                        p.parse(include_ccdecays=False)
+                        for nm in list(arg or []):
+                            try:
+                                p.list_decay_modes(nm)
+                                p.build_decay_chains(nm, stable_particles=list(arg))
+                            except Exception:  # noqa: BLE001
+                                pass
+                        p.parse()
+                    r = None
                 elif op == "reparse":
                     import warnings
                     with warnings.catch_warnings():
@@ -226,6 +255,20 @@ def impl_main(mode, fin, fout):
                     break
         except Exception as e:
             viol.append("exception " + type(e).__name__)
+        if mode == "oracle" and not viol and len(out) < 12:
+            # the same text in a fresh interpreter: the answers must not depend on what this process parsed before
+            try:
+                import os
+                import subprocess
+                code = ("import sys, json; sys.path.insert(0, %r); import decpost; p, _ = decpost.parse(sys.stdin.read()); "
+                        "print(json.dumps(decpost.observe_tables(p)))" % str(Path(__file__).resolve().parent))
+                r = subprocess.run([sys.executable, "-c", code], input=c["text"], capture_output=True, text=True, env=dict(os.environ), timeout=300)
+                fresh_tabs = json.loads(r.stdout.strip().split("\n")[-1])
+                here = json.loads(json.dumps(decpost.observe_tables(decpost.parse(c["text"])[0])))
+                if fresh_tabs != here:
+                    viol.append("the tables read from a text depend on what was parsed earlier in the same process")
+            except Exception:  # noqa: BLE001
+                pass
         out.append(viol if mode == "oracle" else [first, steps, skeleton_of(c["text"])])
     Path(fout).write_text(json.dumps(out))
 
@@ -250,6 +293,8 @@ def gen_cases(rng, tier):
                 arg = rng.choice(mothers)
             elif op == "chains":
                 arg = [rng.choice(mothers), [rng.choice(mothers)] if rng.random() < 0.3 else []]
+            elif op == "reparse_nocc":
+                arg = (mothers + derived)[:8]
             ops.append([op, arg])
         # cyclic tables would recurse forever in chain building
         if not acyclic(stmts):
@@ -258,7 +303,7 @@ def gen_cases(rng, tier):
         else:
             expand_ok = {m: (c10.count_paths(stmts, m) or 0) <= 300 for m in mothers}
         ok_m = [m for m in mothers if expand_ok.get(m)]
-        snap_extra = {"modes": mothers[:3], "chains": ok_m[:2], "expand": ok_m[:2]}
+        snap_extra = {"modes": mothers[:3] + derived[:3], "chains": ok_m[:2], "expand": ok_m[:2]}
         cases.append({"stmts": stmts, "text": b["text"], "ops": ops, "derived": derived, "expand_ok": expand_ok, "snap_extra": snap_extra})
     return cases
 
